@@ -199,8 +199,11 @@ def run_property(prop, tier, seed, replay=None):
     wall = time.time() - t0
     samples = []
     for ci in list(range(min(3, len(cases)))) + ([len(cases) - 1] if len(cases) > 3 else []):
-        samples.append({"case": cases[ci].lines, "class": cases[ci].cls, "model": per_case_model[ci],
-                        "implementation": per_case_impl[flavours[0]][ci]})
+        def clip(xs):
+            # samples are illustrations, not replays: at most 6 lines of a case, each cut to 600 characters
+            return [x if len(x) <= 600 else x[:600] + " …(%d characters)" % len(x) for x in xs[:6]] + (["…(%d lines)" % len(xs)] if len(xs) > 6 else [])
+        samples.append({"case": clip(cases[ci].lines), "class": cases[ci].cls, "model": clip(per_case_model[ci]),
+                        "implementation": clip(per_case_impl[flavours[0]][ci])})
     cov = {
         "obligations": obligations,
         "discharged": discharged if proof_ok else min(discharged, max(0, obligations - 1)),
